@@ -238,6 +238,13 @@ def gen_case(rng, k, nranks=1, ntasks=None, inserters=True, flushes=True, big=Fa
     return lines
 
 
+def use_task_classes(lines):
+    """the same script with every task inserted through the task-class API (body ids >= 100: parsec_dtd_create_task_class +
+    parsec_dtd_task_class_add_chore + parsec_dtd_insert_task_with_task_class, the parsec_dtd_cpu_task_submit path that bumps
+    data-copy versions); the bodies compute the same function of (task id, body id, values read)"""
+    return [re.sub(r' b(\d+)', lambda m: ' b%d' % (100 + int(m.group(1))), ln) if ln.startswith(('t ', 'c ')) else ln for ln in lines]
+
+
 def queries(case):
     return ['run'] + ['obs %d' % t.tid for t in case['tasks']] + ['val %d' % d for d in range(case['nd'])] + ['trace']
 
@@ -618,7 +625,7 @@ def nontrivial(case):
 
 
 def histo(cases_parsed):
-    h = {'tasks': 0, 'R': 0, 'W': 0, 'RW': 0, 'args_with_repeated_datum': 0, 'inserted_by_tasks': 0, 'wait': 0, 'flush': 0, 'flushall': 0,
+    h = {'tasks': 0, 'inserted_through_task_class_api': 0, 'R': 0, 'W': 0, 'RW': 0, 'args_with_repeated_datum': 0, 'inserted_by_tasks': 0, 'wait': 0, 'flush': 0, 'flushall': 0,
          'conflict_pairs': 0}
     for c in cases_parsed:
         h['tasks'] += len(c['tasks'])
@@ -631,6 +638,8 @@ def histo(cases_parsed):
                 seen.add(d)
             if t.parent >= 0:
                 h['inserted_by_tasks'] += 1
+            if t.body >= 100:
+                h['inserted_through_task_class_api'] += 1
         for k, _ in c['prog']:
             if k in h:
                 h[k] += 1
@@ -787,7 +796,10 @@ def run_property(ctx, res, prop, groups, oracle, only=None, rule='', spin=None):
                 handle(run_real(exe, cases, ctx.run_dir, 'g%d' % gi, nranks=1, cores=g['cores'], sched=g['sched'], timeout=g['timeout'], spin=spin,
                                 confirm=False, startup_factor=2))
                 continue
+            tcapi = kw.pop('tcapi', False)
             cases = [gen_case(rng.fork(k + i), k + i, nranks=g['nranks'], **kw) for i in range(g['n'])]
+            if tcapi:       # every other script goes through the task-class insertion API
+                cases = [use_task_classes(c) if i % 2 == 0 else c for i, c in enumerate(cases)]
             k += g['n']
             handle(run_real(exe, cases, ctx.run_dir, 'g%d' % gi, nranks=g['nranks'], cores=g['cores'], sched=g['sched'], timeout=g['timeout'], spin=spin))
         # shrink the first failing generated case (same configuration, real code only)
